@@ -83,11 +83,53 @@ CALLEE_EQUIV = {
 FROZEN = {}
 
 
+# Functions of the backend crates that blsful calls directly on the pinned tree.  Their agreement across the two
+# backends is the dependency contract this property rests on (trait contracts of group / ff / pairing, the hash-to-curve
+# and wide-reduction entry points; `Field::random` is only used where C20 wants fresh randomness and E5.seeded pins the
+# seeded derivations).  A call to any OTHER backend function is a new place where the two builds can part ways
+# (from_raw_unchecked, from_uncompressed*, Ord on scalars, ...): it is reported until its agreement is established here.
+BACKEND_CRATES = ("blstrs_plus", "bls12_381_plus", "blst")
+BACKEND_SURFACE = {
+    "G1Projective::hash", "G2Projective::hash", "Scalar::from_bytes_wide", "Scalar::from_okm", "elliptic_curve::Field::is_zero",
+    "elliptic_curve::Field::random", "elliptic_curve::Group::generator", "elliptic_curve::Group::identity", "elliptic_curve::Group::is_identity",
+    "elliptic_curve::PrimeField::from_repr", "elliptic_curve::PrimeField::to_repr", "elliptic_curve::generic_array::GenericArray::<T, N>::as_slice",
+    "group::Curve::to_affine", "group::GroupEncoding::from_bytes", "group::GroupEncoding::to_bytes", "multi_miller_loop",
+    "pairing::MillerLoopResult::final_exponentiation", "MillerLoopResult::final_exponentiation",
+    # same contracts, other spellings a refactoring may reach for
+    "elliptic_curve::Group::double", "group::Curve::batch_normalize", "group::prime::PrimeCurveAffine::to_curve", "elliptic_curve::Field::invert",
+    "elliptic_curve::Field::square", "elliptic_curve::Field::double", "G1Affine::to_compressed", "G2Affine::to_compressed", "G1Affine::from_compressed", "G2Affine::from_compressed",
+    "G1Projective::to_compressed", "G2Projective::to_compressed", "G1Projective::from_compressed", "G2Projective::from_compressed", "G2Prepared::from", "pairing",
+}
+
+
+def check_backend_surface(ctx, progs, rule="E7.backend-surface"):
+    n = 0
+    for name, P in progs:
+        seen = set()
+        for f in P.fns.values():
+            if f.from_expansion:
+                continue
+            for bb, t in f.calls():
+                c = t.get("callee") or {}
+                p = c.get("path") or ""
+                cr, _, rest = p.partition("::")
+                if cr not in BACKEND_CRATES:
+                    continue
+                n += 1
+                if rest in BACKEND_SURFACE or (f.key, rest) in seen:
+                    continue
+                seen.add((f.key, rest))
+                ctx.ob(rule, "%s|%s->%s" % (name, f.key, rest), False, "%s build: %s calls the backend function `%s`, which is not among the backend functions whose agreement between blstrs_plus and bls12_381_plus this property rests on" % (name, f.key, p), where=where(f, bb))
+    ctx.ob(rule, "census", True, "%d direct calls into the backend crates inspected (both builds)" % n)
+    ctx.floor(rule, "direct calls into the backend crates", n, 40)
+
+
 def run(ctx):
     Pa = ctx.prog("blst", "dev")
     Pb = ctx.prog("rust", "dev")  # raises ExtractError (-> violation `build/cargo-check`) if the rust configuration does not type-check
     ctx.ob("E10.typecheck", "blst", True, "cargo +nightly check --lib (default features) succeeded: %d bodies" % len(Pa.fns))
     ctx.ob("E10.typecheck", "rust", True, "cargo +nightly check --lib --no-default-features --features rust succeeded: %d bodies" % len(Pb.fns))
+    check_backend_surface(ctx, (("blst", Pa), ("rust", Pb)))
     ka, kb = set(Pa.fns), set(Pb.fns)
     ctx.ob("E10.bodies", "same-set", ka == kb, "bodies only in blst build: %s ; only in rust build: %s" % (sorted(ka - kb)[:5], sorted(kb - ka)[:5]))
     ndiff = 0
